@@ -67,6 +67,29 @@ def attach(ob, code, raises_is_violation=False, bucket="default"):
     return ob
 
 
+_crash_verdicts = {}
+
+
+def settle_crash(ob, bucket="crash"):
+    """An obligation whose exact-rational (Mode Q) execution of the real body raised: that alone only says that the changed body uses
+    a construct outside Mode Q.  It is a violation when the replay on the real double-precision code raises too (confirmed);
+    otherwise it is undecided (exit 2), never an alarm.  Obligations whose replay was skipped for budget reasons follow the verdict of
+    the replays that did run in the same bucket."""
+    from .core import UNDECIDED
+    r = ob.replay or {}
+    skipped = isinstance(r.get("outcome"), dict) and "skipped" in r["outcome"]
+    if not skipped:
+        _crash_verdicts.setdefault(bucket, []).append(bool(r.get("confirmed")))
+        confirmed = bool(r.get("confirmed"))
+    else:
+        confirmed = any(_crash_verdicts.get(bucket, []))
+    if not confirmed:
+        ob.status = UNDECIDED
+        ob.detail = dict(ob.detail or {}, note="exact-rational execution of the body raised but the real code runs in double precision: "
+                                               "construct outside Mode Q, undecided (not a violation)")
+    return ob
+
+
 def main(path):
     with open(path) as fh:
         rep = json.load(fh)
